@@ -123,6 +123,7 @@ func cmdReplay(file string) int {
 	cx := NewCtx(P, "quick")
 	os.Setenv("GLCHECK_NO_EVIDENCE", "1")
 	obs := props[rp.Property].Rules(cx)
+	finalizeKeys(obs)
 	for _, o := range obs {
 		if o.Key == rp.Key {
 			fmt.Printf("%s: %s\n  rule: %s\n  %s %v\n", o.Key, o.Status, o.Desc, o.Detail, o.Sites)
